@@ -580,7 +580,7 @@ class LoopRound:
                     a = self.strip(a)
                     if a.get('kind') == 'MemberExpr':
                         name = a['name'] + '()'
-            if name not in self.allowed and not name.startswith('operator'):
+            if name not in self.allowed and name not in ('data', 'dataSize', 'buf', 'bufSize', 'setData', 'get', 'size', 'c_str') and not name.startswith('operator'):
                 raise Unsupported(f'call to {name} inside the loop is not in the list of calls known to return')
             if name not in self.calls:
                 self.calls.append(name)
